@@ -109,6 +109,10 @@ type Case struct {
 	Opt       COptions    `json:"opt"`
 	Features  []string    `json:"features"`
 	Solve     *CSolve     `json:"solve,omitempty"` // solver options the `sol` stream used for this case
+	// Neutral: (a, x, b) triples of the neutral-detour feature — visiting x between a and b leaves b's times unchanged
+	Neutral [][3]int `json:"neutral,omitempty"`
+	// Trap: (A, B) of the removal-trap feature — on the first vehicle the route A, B ends in time, the route A alone does not
+	Trap []int `json:"trap,omitempty"`
 }
 
 type CSolve struct {
@@ -128,6 +132,8 @@ type Profile struct {
 	Capacity, Windows, Precedence, Groups, Alternates, Initial, TD, DurGroups, Mult bool
 	Attrs, Mix, Limits, Waits, Targets, MinStops, Disable, NonMetric               bool
 	Tight                                                                           bool
+	ForcePrec                                                                       bool // precedence units always on
+	Trap                                                                            bool // removal trap (see Case.Trap)
 	ForceWindows                                                                    bool // windows, wait limits and a non-metric matrix always on
 	ForceUnordered                                                                  bool // at least one multi-stop unit with several allowed orders
 }
@@ -194,7 +200,7 @@ func genCase(rng *rand.Rand, p Profile) *Case {
 	useCap := on(p.Capacity, 2)
 	useWin := on(p.Windows, 2) || p.ForceWindows
 	usePrec := on(p.Precedence, 2)
-	if p.ForceUnordered {
+	if p.ForceUnordered || p.ForcePrec {
 		usePrec = true
 	}
 	useAttrs := on(p.Attrs, 3)
@@ -502,7 +508,7 @@ func genCase(rng *rand.Rand, p Profile) *Case {
 	if nonMetric {
 		c.feature("non-metric")
 	}
-	c.Dist = genMatrix(rng, m, 10, 400, false)
+	c.Dist = genMatrix(rng, m, 10, 400, nonMetric && rng.Intn(2) == 0)
 	if on(p.TD, 5) {
 		c.feature("time-dependent")
 		td := &CTD{Default: genMatrix(rng, m, 30, 600, nonMetric)}
@@ -534,11 +540,45 @@ func genCase(rng *rand.Rand, p Profile) *Case {
 	}
 	// arrival-neutral detours: a zero-duration stop x that can be visited between a and b without changing
 	// the arrival at b (the branch where the wait estimates stop walking the route early)
-	if c.Dur != nil && n >= 3 && rng.Intn(3) == 0 {
+	if c.Dur != nil && n >= 3 && (rng.Intn(3) == 0 || (p.ForceWindows && rng.Intn(2) == 0) || p.ForcePrec) {
 		c.feature("neutral-detour")
 		for k := 0; k < 1+rng.Intn(3); k++ {
 			pm := rng.Perm(n)
 			a, x, b := pm[0], pm[1], pm[2]
+			if rng.Intn(2) == 0 || p.ForcePrec {
+				// the neutral stop is an EARLIER stop of a multi-stop unit (a pickup): its later stops are then
+				// inserted behind planned stops whose times the first insertion left unchanged
+				for _, cand := range pm {
+					if len(c.Stops[cand].Precedes) == 0 {
+						continue
+					}
+					succ := map[int]bool{cand: true}
+					for _, pr := range c.Stops[cand].Precedes {
+						succ[pr.To] = true
+					}
+					var rest []int
+					for _, t := range pm {
+						if !succ[t] {
+							rest = append(rest, t)
+						}
+					}
+					if len(rest) >= 2 {
+						a, x, b = rest[0], cand, rest[1]
+						// the pickup never waits (a wait would shift everything behind it)
+						c.Stops[cand].Windows = nil
+						c.Stops[cand].MaxWait = nil
+						// … and its successors tolerate little waiting, so that their own limit is what decides
+						for _, pr := range c.Stops[cand].Precedes {
+							if len(c.Stops[pr.To].Windows) > 0 && rng.Intn(2) == 0 {
+								w := 60 * rng.Intn(3)
+								c.Stops[pr.To].MaxWait = &w
+							}
+						}
+						c.feature("neutral-detour-first-stop-of-unit")
+					}
+					break
+				}
+			}
 			if len(c.DurGroups) > 0 && rng.Intn(2) == 0 {
 				// the detour leaves and re-enters a duration group: the END of b changes, its arrival does not
 				g := c.DurGroups[0].Stops
@@ -556,6 +596,66 @@ func genCase(rng *rand.Rand, p Profile) *Case {
 			c.Stops[x].Duration = 0
 			c.Dur[a][x] = 0
 			c.Dur[x][b] = c.Dur[a][b]
+			c.Neutral = append(c.Neutral, [3]int{a, x, b})
+		}
+	}
+	// removal trap: two plain stops A, B and the first vehicle's end time chosen so that start → A → B → end just fits
+	// while the direct leg A → end is long (a non-metric matrix): un-planning B would make the vehicle finish late
+	if p.Trap && c.Dur != nil && n >= 2 && len(c.Vehicles) > 0 {
+		var plain []int
+		for i := range c.Stops {
+			inGroup := false
+			for _, g := range c.DurGroups {
+				for _, s := range g.Stops {
+					if s == i {
+						inGroup = true
+					}
+				}
+			}
+			incoming := false
+			for _, st := range c.Stops {
+				for _, pr := range st.Precedes {
+					if pr.To == i {
+						incoming = true
+					}
+				}
+			}
+			if len(c.Stops[i].Precedes) == 0 && !incoming && !inGroup {
+				plain = append(plain, i)
+			}
+		}
+		ve := &c.Vehicles[0]
+		if len(plain) >= 2 && ve.Start != nil && ve.Mult == nil && len(ve.Initial) == 0 {
+			rng.Shuffle(len(plain), func(i, j int) { plain[i], plain[j] = plain[j], plain[i] })
+			a, b := plain[0], plain[1]
+			c.Stops[a].Windows, c.Stops[a].MaxWait = nil, nil
+			c.Stops[b].Windows, c.Stops[b].MaxWait = nil, nil
+			ve.StartLoc, ve.EndLoc = true, true
+			sIdx := len(c.Stops) + len(c.Alts)
+			eIdx := sIdx + 1
+			chain := c.Dur[sIdx][a] + c.Stops[a].Duration + c.Dur[a][b] + c.Stops[b].Duration + c.Dur[b][eIdx]
+			c.Dur[sIdx][b] = c.Dur[sIdx][a]
+			c.Dur[a][eIdx] = c.Dur[a][b] + c.Stops[b].Duration + c.Dur[b][eIdx] + 600
+			end := *ve.Start + int64(chain) + 30
+			switch rng.Intn(3) {
+			case 0:
+				ve.End = &end
+				ve.MaxDur = nil
+			case 1:
+				md := chain + 30
+				ve.MaxDur = &md
+				ve.End = nil
+			default: // the same trap for the distance limit
+				ve.End, ve.MaxDur = nil, nil
+				c.Dist[sIdx][b] = c.Dist[sIdx][a]
+				c.Dist[a][eIdx] = c.Dist[a][b] + c.Dist[b][eIdx] + 500
+				md := c.Dist[sIdx][a] + c.Dist[a][b] + c.Dist[b][eIdx] + 10
+				ve.MaxDist = &md
+				c.feature("removal-trap-distance")
+			}
+			ve.MaxWait = nil
+			c.Trap = []int{a, b}
+			c.feature("removal-trap")
 		}
 	}
 	// initial stops: a feasible-looking prefix assignment that respects units (unit members together,
